@@ -254,6 +254,23 @@ pub fn run(ctx: &Ctx) -> PropertyReport {
         }
         rep.push(r);
     }
+    if sub.runs("large") {
+        // long values (text, base64, shared strings, sequences of > 64 Ki keypoints) and > 64 Ki instances
+        use super::c01::LargeCase;
+        let mut cases = Vec::new();
+        for kind in ["String", "BinaryString", "SharedString", "NumberSequence", "ColorSequence"] {
+            for n in [65_536usize, 65_537, 200_001] {
+                cases.push(LargeCase::LongValue { kind: kind.to_string(), n });
+            }
+        }
+        cases.push(LargeCase::ManyInstances { n: 65_537 });
+        rep.push(ctx.run_list("large", cases, true, |c: &LargeCase, ctx: &mut CaseCtx| {
+            let case = XmlCase { forest: super::c01::large_forest(c), pairing: Pairing::Unknown };
+            roundtrip_body(&case, ctx)?;
+            ctx.nontrivial();
+            Ok(())
+        }));
+    }
     if sub.runs("deep") {
         let cases = ctx.cfg.cases(60, 1500);
         let nodes = ctx.cfg.tier.pick(300, 300);
